@@ -76,6 +76,21 @@ func TestMain(m *testing.M) {
 	loadKnown()
 	code := m.Run()
 	closePools()
+	if n := ops.InfraCount.Load(); n > 0 {
+		var total int64
+		collMu.Lock()
+		for _, c := range collectors {
+			total += c.Evals
+			c.Notes = append(c.Notes, fmt.Sprintf("%d cases could not be executed by the harness and were skipped (e.g. %v)", n, ops.LastInfra.Load()))
+		}
+		collMu.Unlock()
+		if n > 20 && n*20 > total { // more than 5% of the cases: the run has shown too little
+			fmt.Printf("INFRA %d of %d cases could not be executed (e.g. %v)\n", n, total, ops.LastInfra.Load())
+			if code == 0 {
+				code = 3
+			}
+		}
+	}
 	flushAll()
 	os.RemoveAll(ops.DefaultEnv.Scratch)
 	if ownScratch != "" {
